@@ -97,17 +97,24 @@ Fixpoint tuple_eq (a b : list val) : bool :=
   | x :: a', y :: b' => py_cmp CEq x y && tuple_eq a' b'
   | _, _ => false
   end.
-Fixpoint dict_get (k : list val) (d : list (list val * Z)) : option Z :=
-  match d with [] => None | (k', v) :: r => if tuple_eq k k' then Some v else dict_get k r end.
-(* [keyids.setdefault(key, len(keyids)) for key in keys] *)
-Fixpoint number_keys (keys : list (list val)) (d : list (list val * Z)) : list Z :=
-  match keys with
-  | [] => []
-  | k :: r => match dict_get k d with
-              | Some i => i :: number_keys r d
-              | None => let i := k_group_newid (Z.of_nat (List.length d)) in i :: number_keys r (d ++ [(k, i)])
-              end
-  end.
+(* the dict `keyids`, generic in the equality that identifies keys (the code: tuple ==) *)
+Section KeyIds.
+  Context {K : Type}.
+  Variable e : K -> K -> bool.
+  Fixpoint gdict_get (k : K) (d : list (K * Z)) : option Z :=
+    match d with [] => None | (k', v) :: r => if e k k' then Some v else gdict_get k r end.
+  (* [keyids.setdefault(key, len(keyids)) for key in keys] *)
+  Fixpoint gnumber_keys (keys : list K) (d : list (K * Z)) : list Z :=
+    match keys with
+    | [] => []
+    | k :: r => match gdict_get k d with
+                | Some i => i :: gnumber_keys r d
+                | None => let i := k_group_newid (Z.of_nat (List.length d)) in i :: gnumber_keys r (d ++ [(k, i)])
+                end
+    end.
+End KeyIds.
+Definition dict_get : list val -> list (list val * Z) -> option Z := gdict_get tuple_eq.
+Definition number_keys : list (list val) -> list (list val * Z) -> list Z := gnumber_keys tuple_eq.
 (* the key cell: NaN is replaced by the text nan *)
 Definition m_keycell (v : val) : val := k_group_keycell (negb (py_cmp CEq v v)) (VStr "nan") v.
 
@@ -155,3 +162,16 @@ Definition m_group (d : mdm) (bynames : list string) : option gtable :=
                                        let '(depth, rows) := series_run (O, repeat [] ng) O vals in
                                        [(nm, depth, rows)]) (m_cols d) |}
   end.
+
+(* ---------- the premise of the refinement theorem for group (Props/C14.v), as a boolean so that it can be
+   evaluated on every dumped source: distinct row ids, at least one column unless there are no rows, every column as
+   long as the row-id list, distinct column names, and no by-cell is the literal text nan (C05: no column stores it) *)
+Fixpoint nodup_str (l : list string) : bool :=
+  match l with [] => true | x :: r => negb (existsb (String.eqb x) r) && nodup_str r end.
+Definition not_nan_text_b (v : val) : bool := match v with VStr s => negb (String.eqb s "nan") | _ => true end.
+Definition wf_group_b (d : mdm) (bynames : list string) : bool :=
+  nodup_N (m_rid d)
+  && Nat.eqb (nrows_of (m_cols d)) (List.length (m_rid d))
+  && forallb (fun '(_, _, cs) => Nat.eqb (List.length cs) (List.length (m_rid d))) (m_cols d)
+  && nodup_str (map (fun c => fst (fst c)) (m_cols d))
+  && forallb (fun '(n, _, cs) => negb (existsb (String.eqb n) bynames) || forallb not_nan_text_b cs) (m_cols d).
